@@ -96,12 +96,12 @@ func (u *UniAttribute) Decode(is *codec.Reader) error {
 		var k string
 		var v []byte
 
-		err = is.ReadString(&k, 0, false)
+		err = is.ReadString(&k, 0, true)
 		if err != nil {
 			return err
 		}
 
-		have, ty, err = is.SkipToNoCheck(1, false)
+		have, ty, err = is.SkipToNoCheck(1, true)
 		if err != nil {
 			return err
 		}
